@@ -28,6 +28,7 @@ RULE = (
     "pair of direct _dqn_loss calls differing in one row. non-trivial = the tap delivered projection and loss for "
     "every expected _dqn_loss call of all 3 learn() calls, every row was compared with the float64 reference "
     "projection, and (per=True) the returned priorities were compared; distinct = distinct case descriptions"
+    " Added: hp_route in {construct, construct, assign, mutate}: discount and n-step exponent given to the constructor, assigned after construction, or (gamma) set by a real rl_hp mutation with a one-point range"
 )
 ASSUMPTIONS = [
     "batches have exactly agent.batch_size rows (RainbowDQN._dqn_loss builds its index offset from self.batch_size; "
